@@ -232,10 +232,11 @@ def two_signal_loop(n_limit: int, c0: int, watchers: int = 1, name: str = "twosi
     counts = _counts(trace)
     iters = counts.get("b", 0)
     for j in range(watchers):
-        nodes.append({"k": "fn", "name": f"w{j}", "params": [{"n": "count"}], "outs": [f"seen{j}"], "wait": ["sa", "sb"], "beh": ["mark", "count", f"w{j}"]})
+        # the watcher reads `tmp`, which goes stale when the EARLIER producer runs: it must still wait for the later signal
+        nodes.append({"k": "fn", "name": f"w{j}", "params": [{"n": "tmp"}], "outs": [f"seen{j}"], "wait": ["sa", "sb"], "beh": ["mark", "tmp", f"w{j}"]})
         if iters:
             counts[f"w{j}"] = iters
-            vals[f"seen{j}"] = (f"w{j}", c)
+            vals[f"seen{j}"] = (f"w{j}", vals["tmp"])
     ref = {"trace": None, "values": vals, "counts": counts, "singleton_steps": False, "steps": len(trace) + iters}
     return {"spec": {"name": name, "nodes": nodes, "bind": {}}, "inputs": inputs, "ref": ref, "template": f"two-signal(watchers={watchers})"}
 
